@@ -73,6 +73,7 @@ type proxy struct {
 	copied           map[string]bool // checkpoints already copied into the receiver's remote backup directory
 	skipCopy         int             // how many transfer notifications still "fail to bring the files"
 	loseNextTransfer bool            // the next transfer notification is lost before it reaches the receiver
+	stall            bool            // the receiver "cannot take logs": ApplyRaftReqs calls fail before they reach it
 	snapFaults       int
 }
 
@@ -113,6 +114,9 @@ func (p *proxy) ApplyRaftReqs(ctx context.Context, in *syncerpb.RaftReqs) (*sync
 	p.calls++
 	if p.broken != "" {
 		return nil, errors.New("proxy broken")
+	}
+	if p.stall {
+		return nil, errors.New("injected: the receiver cannot take logs now")
 	}
 	fault := 0
 	if p.faults < 12 {
@@ -659,6 +663,187 @@ func runE(l *live, pre string, r *hx.Rng, withSnap bool, failFirstApply bool, tw
 		}
 		obs = append(obs, "SRC "+sourceDump("mem", c, ents, mc))
 	}
+	d, err := l.ask(fmt.Sprintf("E %s %d", pre, px.maxc))
+	if err != nil {
+		return "", "", err
+	}
+	obs = append(obs, "END "+d)
+	return strings.Join(ops, " "), strings.Join(obs, " / "), nil
+}
+
+// runL: two more end-to-end scenarios on the SENDING side (real logSyncerSM instances, one source cluster), recorded
+// like runE.  The receiver is stalled by the proxy (calls fail before they reach it), which takes real seconds:
+//
+//	variant "standby": learner L1 forwards, learner L2 is the stand-by (ignore mode: switchIgnoreSend(false)) applying
+//	  the same raft log; the receiver stalls, L1 keeps its backlog and dies; L2 becomes the forwarding learner
+//	  (VerifSyncerSwitchSend(true)).  A stand-by may only move past an entry once the receiver has it.
+//	variant "lsnap": with a backlog (receiver stalled) the learner's raft asks for a snapshot (StateMachine.GetSnapshot,
+//	  which waits 10 s for the buffered logs); only a SUCCESSFUL snapshot moves the point from which a restarted
+//	  learner replays its raft log.  Then the learner dies and comes back.
+func runL(l *live, pre string, r *hx.Rng, variant string) (string, string, error) {
+	src := genSource(r, 1)
+	for len(src) < 6 {
+		src = genSource(r, 1)
+	}
+	px := &proxy{l: l, pre: pre, r: r, payload: map[string]uint64{}, src: map[int][]sent{1: src}, copied: map[string]bool{}}
+	px.faults = 12 // no random faults in these runs: the stall is the fault
+	for _, e := range src {
+		px.payload[fmt.Sprintf("%d.%d", 1, e.i)] = e.p
+	}
+	px.dial()
+	var ln net.Listener
+	var err error
+	pport := 0
+	for try := 0; try < 200; try++ {
+		pport = 37000 + (l.port-37000+16+try*3)%996
+		ln, err = net.Listen("tcp", fmt.Sprintf("127.0.0.1:%d", pport))
+		if err == nil {
+			break
+		}
+	}
+	if err != nil {
+		return "", "", err
+	}
+	gs := grpc.NewServer()
+	syncerpb.RegisterCrossClusterAPIServer(gs, px)
+	go gs.Serve(ln)
+	defer gs.Stop()
+	defer func() {
+		if px.conn != nil {
+			px.conn.Close()
+		}
+	}()
+	paddr := fmt.Sprintf("127.0.0.1:%d", pport)
+	stop := make(chan struct{})
+	defer close(stop)
+	name := pre + clusterName(1)
+	feed := func(sm node.StateMachine, from, to int) error {
+		for j := from; j < to; j++ {
+			e := src[j]
+			if _, err := sm.ApplyRaftRequest(false, nil, reqListForP(pre, 1, e.p, e.ts), e.t, e.i, stop); err != nil {
+				return err
+			}
+		}
+		return nil
+	}
+	waitSynced := func(pos int, d time.Duration) bool {
+		end := time.Now().Add(d)
+		for time.Now().Before(end) {
+			if px.syncedIndex(1) >= src[pos-1].i {
+				return true
+			}
+			time.Sleep(20 * time.Millisecond)
+		}
+		return false
+	}
+	setStall := func(b bool) {
+		px.mu.Lock()
+		px.stall = b
+		px.mu.Unlock()
+	}
+	n := len(src)
+	a := 1 + r.Pick(n-3) // entries delivered while everything is healthy
+	b := a + 1 + r.Pick(n-a-1)
+	if b > a+2 {
+		b = a + 2 // the backlog: 1 or 2 entries (every entry costs the stand-by real seconds)
+	}
+	l1, err := newSyncerSM(name, paddr, "")
+	if err != nil {
+		return "", "", err
+	}
+	var l2 node.StateMachine
+	l2done := make(chan error, 1)
+	if variant == "standby" {
+		l2, err = newSyncerSM(name, paddr, "")
+		if err != nil {
+			return "", "", err
+		}
+		node.VerifSyncerSwitchSend(l1, true)
+		node.VerifSyncerSwitchSend(l2, false)
+		go func() { l2done <- feed(l2, 0, n) }() // the stand-by's raft apply loop: the same log, at its own pace
+	}
+	closeAll := func() {
+		if l1 != nil {
+			l1.Close()
+		}
+		if l2 != nil {
+			l2.Close()
+		}
+	}
+	if err := feed(l1, 0, a); err != nil {
+		closeAll()
+		return "", "", err
+	}
+	if !waitSynced(a, 20*time.Second) {
+		closeAll()
+		return "", "", errors.New("learners: the healthy prefix did not arrive")
+	}
+	snapIdx := 0
+	if variant == "lsnap" {
+		if _, err := l1.GetSnapshot(src[a-1].t, src[a-1].i); err == nil {
+			snapIdx = a // a learner snapshot with the buffer drained
+		}
+	}
+	setStall(true)
+	if err := feed(l1, a, b); err != nil {
+		closeAll()
+		return "", "", err
+	}
+	if variant == "lsnap" {
+		// the learner's raft wants a snapshot while the backlog cannot be sent: GetSnapshot waits 10 s for the buffer
+		if _, err := l1.GetSnapshot(src[b-1].t, src[b-1].i); err == nil {
+			snapIdx = b
+		}
+	} else {
+		time.Sleep(4500 * time.Millisecond) // time for a stand-by that is willing to run ahead to do so
+	}
+	// the forwarding learner dies with its backlog
+	l1.Close()
+	l1 = nil
+	setStall(false)
+	if variant == "standby" {
+		node.VerifSyncerSwitchSend(l2, true)
+		select {
+		case err := <-l2done:
+			if err != nil {
+				closeAll()
+				return "", "", err
+			}
+		case <-time.After(40 * time.Second):
+			closeAll()
+			return "", "", errors.New("learners: the stand-by did not finish its log")
+		}
+	} else {
+		// the learner comes back: its raft replays the log behind its last snapshot
+		l1, err = newSyncerSM(name, paddr, "")
+		if err != nil {
+			return "", "", err
+		}
+		if err := feed(l1, snapIdx, n); err != nil {
+			closeAll()
+			return "", "", err
+		}
+	}
+	// drain: until the receiver's position is the last entry's (a sender that skipped entries still gets there)
+	if !waitSynced(n, 30*time.Second) {
+		closeAll()
+		return "", "", errors.New("learners: drain timeout")
+	}
+	time.Sleep(100 * time.Millisecond)
+	closeAll()
+	px.mu.Lock()
+	defer px.mu.Unlock()
+	if px.broken != "" {
+		return "", "", errors.New("proxy: " + px.broken)
+	}
+	ops := append([]string{}, px.ops...)
+	obs := append([]string{}, px.obs...)
+	var es []string
+	for _, e := range src {
+		es = append(es, fmt.Sprintf("%d.%d.%d.%d", e.t, e.i, e.ts, e.p))
+	}
+	ops = append(ops, "Q:1:"+strings.Join(es, ","))
+	obs = append(obs, "SRC "+sourceDump("mem", 1, es, px.maxc))
 	d, err := l.ask(fmt.Sprintf("E %s %d", pre, px.maxc))
 	if err != nil {
 		return "", "", err
